@@ -44,7 +44,7 @@ cases.",
 // the string is at least 2^52 bytes in size (4.5 PB)
 #[allow(clippy::cast_precision_loss)]
 fn shannon_entropy(value: &Value, segmentation: &Segmentation) -> Resolved {
-    let (occurrence_counts, total_length): (Vec<usize>, usize) = match segmentation {
+    let (mut occurrence_counts, total_length): (Vec<usize>, usize) = match segmentation {
         Segmentation::Byte => {
             // Optimized version for bytes, since there is a limited number of options, that could
             // easily be kept track of
@@ -97,6 +97,10 @@ fn shannon_entropy(value: &Value, segmentation: &Segmentation) -> Resolved {
             (counts.into_values().collect(), total_len)
         }
     };
+
+    // The counts come out of a `HashMap` in arbitrary order and floating-point addition is
+    // not associative: sum them in a fixed order so that equal inputs give equal results.
+    occurrence_counts.sort_unstable();
 
     Ok(Value::from_f64_or_zero(
         occurrence_counts
